@@ -183,9 +183,13 @@ func norm(now int64, ttl uint32) int64 {
 	return now + int64(ttl)
 }
 
+// PipeFactory creates the two ends of an in-memory connection; net.Pipe by default, the
+// harness installs an unbounded buffered pipe.
+var PipeFactory = func() (net.Conn, net.Conn) { return net.Pipe() }
+
 // Pipe returns the client end of a new in-memory connection served by s.
 func (s *Server) Pipe() net.Conn {
-	c, srv := net.Pipe()
+	c, srv := PipeFactory()
 	id := int(atomic.AddInt32(&s.nextConn, 1))
 	atomic.AddInt32(&s.open, 1)
 	atomic.AddInt32(&s.accepted, 1)
